@@ -1606,6 +1606,9 @@ func (a *An) closedCalls(prop string) {
 		if _, still := a.C.Fn(fn); !still {
 			continue
 		}
+		if erasePrims[fn] {
+			continue // the erasing primitives: what their bodies do is judged by P.wipe-helpers, in whatever form it is written
+		}
 		n++
 		was := map[string]bool{}
 		for _, x := range frozen {
